@@ -143,7 +143,7 @@ func stripText(l []string) []string {
 }
 
 func checkC10(c *core.Ctx) {
-	c.Rule("pipelines over chord texts rendered from the piece model in both notations (all intervals the notation can express incl. compound ones, all 28 keys via {key=}, tempo/meter/dynamics, metadata strings from a YAML-hostile corpus): text conv | write parse (compared field by field with the model), text conv | write (decoded SMF compared with the model), ... | write conv -c cmt | write and write conv twice (idempotence, same music apart from the documented txt); instance documents -> write conv -> write compared with direct write; " +
+	c.Rule("pipelines over chord texts rendered from the piece model in both notations (all intervals the notation can express incl. compound ones, all 28 keys via {key=}, tempo/meter/dynamics, metadata strings from a YAML-hostile corpus): text conv | write parse (compared field by field with the model), text conv | write (decoded SMF compared with the model), ... | write conv -c cmt | write and write conv twice (idempotence, same music apart from the documented txt); instance documents -> write conv -> write compared with direct write (numbers with leading zeros, final rests whose text ends in blank lines, -o onto existing files, in place); " +
 		"library level: Marshal/Unmarshal round trip of every scalar type (every Degree up to 64, 28 keys, fractions with 64-bit operands, meters, dynamics, bpm, metadata maps with every pair of a 40-rune hostile alphabet) and of whole instances; non-trivial = pipeline with an altered or compound interval, a non-ASCII or YAML-significant string and a setting; distinct by text")
 	c.Assume("score model (theory + exact ticks)", "smfdec", "yaml.v3 as the harness's reader", "metadata values that chord text cannot carry ({ } = , and leading blanks) are not generated for the text pipelines")
 
